@@ -88,16 +88,23 @@ def gen_cmd_cases(ctx):
     for n in names:
         for v in vals:
             out.append(("listInt", [op_json(n), op_json(v), "listInt"],
-                        lambda oo, n=n, v=v: f"run_list_from_int {oo} fo defs {op_coq(n)} {op_coq(v)}", 42))
+                        lambda oo, n=n, v=v: f"run_list_from_int {oo} fo defs {op_coq(n)} {op_coq(v)}", 42, (n, v)))
     bounds = [I(0), I(1), I(2), I(3), I(5), I(-1), I(I32_MAX), I(I32_MIN), F(1.5), S("a"), VOID, GLUE,
               L([]), L([("L", "b", 2)]), L([("M", "x", 1), ("M", "z", 5)]), L([("L", "a", 1), ("M", "x", 1)])]
     targets = LISTS_WF + [I(1), S("a"), L([(None, "a", 1)])]
     pool = [(t, a, b) for t in targets for a in bounds for b in bounds]
+    # a bound that is a LIST with several different values, as lower and as upper bound, on targets that
+    # hold items below, between and above those values (always present, whatever the sample)
+    wide = [L([("M", "x", 1), ("M", "z", 5)]), L([("L", "b", 2), ("M", "z", 5)]), L([("L", "b", 2), ("L", "c", 3)])]
+    must = [(t, a, b) for t in (LISTS_WF[7], LISTS_WF[9], LISTS_WF[11], LISTS_WF[15])
+            for a, b in [(w, I(I32_MAX)) for w in wide] + [(I(0), w) for w in wide] + [(wide[2], wide[0]), (wide[0], wide[2])]]
     if ctx.quick():
         pool = ctx.rng.sample(pool, 180)
+    pool = must + [c for c in pool if c not in must]
     for t, a, b in pool:
         out.append(("range", [op_json(t), op_json(a), op_json(b), "range"],
-                    lambda oo, t=t, a=a, b=b: f"run_list_range {oo} fo defs {op_coq(t)} {op_coq(a)} {op_coq(b)}", 42))
+                    lambda oo, t=t, a=a, b=b: f"run_list_range {oo} fo defs {op_coq(t)} {op_coq(a)} {op_coq(b)}", 42,
+                    (t, a, b)))
     seeds = [0, 1, 42, 99, -5, 123456789] if ctx.quick() else list(range(0, 40)) + [-5, 123456789, I32_MAX, I32_MIN]
     for t in LISTS_WF + LISTS_BAD + [I(1), VOID]:
         for sd in seeds:
@@ -214,7 +221,7 @@ def run(ctx):
 
     mism, order_dep, spec_fail = [], [], []
     suspected = {}
-    n_native = n_cmd = n_f32 = n_spec = n_chain = n_ink = 0
+    n_native = n_cmd = n_f32 = n_spec = n_chain = n_ink = n_cmd_spec = 0
     tables = {}
     cases = []
     try:
@@ -244,13 +251,18 @@ def run(ctx):
                 sexprs.append(f"run_spec_scalar fo {op} [{a}]")
             elif len(args) == 2 and all(x in LISTS_WF for x in args):
                 sexprs.append(f"run_spec_list_binary fo {op} {coq[0]} {coq[1]}")
-            elif len(args) == 1 and args[0] in LISTS_WF and op in ("NCount", "NValueOfList", "NNot", "NAll", "NInvert"):
+            elif len(args) == 1 and args[0] in LISTS_WF and op in ("NCount", "NValueOfList", "NNot", "NAll", "NInvert",
+                                                                   "NListMin", "NListMax"):
                 sexprs.append(f"run_spec_list_unary fo defs {op} {coq[0]}")
+            elif len(args) == 2 and args[0] in LISTS_WF and args[1][0] == "i" and op in ("NAdd", "NSubtract"):
+                sexprs.append(f"run_spec_list_increment fo defs {op} {coq[0]} {coq[1]}")
             else:
                 continue
             sidx.append(k)
         cmds = gen_cmd_cases(ctx)
         n_cmd = len(cmds)
+        cmd_operands = {k: c[4] for k, c in enumerate(cmds) if len(c) > 4}
+        cmds = [c[:4] for c in cmds]
         ccases = [{"id": f"c{k}", "story": story_json(content), "seed": sd, "script": [["CONT"]]}
                   for k, (_, content, _, sd) in enumerate(cmds)]
         cimpl = [nc.outcome(r) for r in vlib.run_inkdrive(ccases, exe)]
@@ -258,6 +270,18 @@ def run(ctx):
         draws = nc.oracle([["rng", s] for s in seeds])
         rngt = "Definition rngt : list (Z * Z) := [" + ";".join(f"(({s})%Z, {d}%Z)" for s, d in zip(seeds, draws)) + "].\n"
         cexprs = [f"all_orders (fun oo => {mk('oo')})" for _, _, mk, _ in cmds]
+        # the SPECIFICATION of the list commands (Spec/ListSpec.v: s_range_b, s_from_int) on the cases it covers:
+        # LIST_RANGE of a well-formed list with int / well-formed list bounds, ListName(n) with a string and an int
+        csidx, csexprs = [], []
+        for k, (kind, content, _, _) in enumerate(cmds):
+            ops_ = cmd_operands.get(k)
+            if kind == "range" and ops_[0] in LISTS_WF and all(x[0] == "i" or x in LISTS_WF for x in ops_[1:]):
+                csexprs.append("run_spec_list_range fo " + " ".join(op_coq(x) for x in ops_))
+            elif kind == "listInt" and ops_[0][0] == "s" and ops_[1][0] == "i":
+                csexprs.append("run_spec_list_from_int fo defs " + " ".join(op_coq(x) for x in ops_))
+            else:
+                continue
+            csidx.append(k)
         chains = gen_chain_cases(ctx)
         himpl = nc.run_impl([story_json([op_json(a), op_json(b), OPS[op1][0], OPS[op2][0]]) for a, op1, b, op2 in chains],
                             exe, "h")
@@ -280,14 +304,15 @@ def run(ctx):
         f_f32 = pool.submit(f32_tie, ctx)
         f_nat = pool.submit(nc.run_model, exprs, pre, "c07n")
         f_spec = pool.submit(vlib.coq_eval_sharded, nc.PREAMBLE + "From Ink.Spec Require Import ExprSpec SpecRun.\n" + pre,
-                             sexprs + kexprs, 300, "c07s")
+                             sexprs + kexprs + csexprs, 300, "c07s")
         f_cmd = pool.submit(nc.run_model, cexprs + hexprs, pre + rngt, "c07c")
         n_f32, badf = f_f32.result()
         for bd in badf:
             mism.append(dict(stream="f32", **bd))
         model = nc.resolve_sentinels(f_nat.result())
         smodel = nc.resolve_sentinels(f_spec.result())
-        smodel, kmodel = smodel[:len(sexprs)], smodel[len(sexprs):]
+        smodel, kmodel, csmodel = (smodel[:len(sexprs)], smodel[len(sexprs):len(sexprs) + len(kexprs)],
+                                   smodel[len(sexprs) + len(kexprs):])
         cmodel = nc.resolve_sentinels(f_cmd.result())
         cmodel, hmodel = cmodel[:len(cmds)], cmodel[len(cmds):]
         pool.shutdown()
@@ -308,13 +333,28 @@ def run(ctx):
             n_spec += 1
             if sp != impl[k]:
                 op, args = cases[k]
-                spec_fail.append(dict(op=op, args=args, impl=impl[k], spec=sp))
+                f = dict(op=op, args=args, impl=impl[k], spec=sp)
+                if op in ("NListMin", "NListMax"):
+                    f["key"] = "spec-disagrees:list-min-max"
+                elif len(args) == 2 and args[1][0] == "i" and args[0][0] == "l":
+                    f["key"] = "spec-disagrees:list-increment"
+                spec_fail.append(f)
         for (kind, content, _, sd), i, m in zip(cmds, cimpl, cmodel):
             alts = [strip_site(x) for x in m.split("\x03")]
             if len(alts) > 1:
                 order_dep.append(dict(op=kind, content=content, outcomes=alts))
             if i not in alts:
                 mism.append(dict(stream="cmd", kind=kind, content=content, seed=sd, impl=i, model=m))
+        # property-direct: the list commands of the implementation vs the specification
+        for k, sp in zip(csidx, csmodel):
+            if sp == 'no-spec':
+                continue
+            n_spec += 1
+            n_cmd_spec += 1
+            if sp != cimpl[k]:
+                kind, content, _, sd = cmds[k]
+                spec_fail.append(dict(stream="cmd", kind=kind, content=content, seed=sd, impl=cimpl[k], spec=sp,
+                                      key="spec-disagrees:" + ("list-range" if kind == "range" else "list-from-int")))
         for (a, op1, b, op2), i, m in zip(chains, himpl, hmodel):
             alts = [strip_site(x) for x in m.split("\x03")]
             if len(alts) > 1:
@@ -354,6 +394,7 @@ def run(ctx):
         traces_validated_against_impl=n_native + n_cmd + n_f32 + n_chain,
         suspected_deviations_from_reference=suspected,
         compared_with_specification=n_spec,
+        list_commands_compared_with_specification=n_cmd_spec,
         ink_expressions_compiled_and_played=n_ink,
         correspondence_mismatches=len(mism),
         order_dependent_cases=len(order_dep),
@@ -369,8 +410,8 @@ def run(ctx):
         nc.require_stable_tables("proof / correspondence result")
     if spec_fail:
         f = spec_fail[0]
-        ctx.violation("implementation differs from the Ink specification (Spec/ExprSpec.v): " + json.dumps(f)[:300],
-                      f, key="native-vs-spec:" + f.get("op", "?"))
+        ctx.violation("implementation differs from the Ink specification (Spec/ExprSpec.v, Spec/ListSpec.v): "
+                      + json.dumps(f)[:400], f, key=f.get("key") or "native-vs-spec:" + f.get("op", "?"))
     elif not pr["ok"]:
         ctx.violation("theorem no longer checks: " + pr["failed"][:400],
                       dict(theorem_file="theories/Props/C07.v", error=pr["failed"]), no_input=True)
@@ -385,7 +426,18 @@ def replay(ctx, payload):
     ms = r.get("mismatches") or ([r] if r.get("op") else [])
     n = 0
     for m in ms:
-        if m.get("stream") == "native" or m.get("op") in OPS:
+        if m.get("stream") == "cmd" and m.get("content"):
+            res = vlib.run_inkdrive([{"id": "r0", "story": story_json(m["content"]), "seed": m.get("seed", 42),
+                                      "script": [["CONT"]]}], exe)
+            out = nc.outcome(res[0])
+            n += 1
+            if out != m.get("impl"):
+                ctx.notes.append(f"replay: outcome changed: was {m.get('impl')} now {out}")
+            else:
+                ctx.violation(f"replayed: {m['kind']} {json.dumps(m['content'])} -> {out} "
+                              f"(specification {m.get('spec')}, model {m.get('model')})", m,
+                              key=m.get("key"), no_input="spec" not in m)
+        elif m.get("stream") == "native" or m.get("op") in OPS:
             args = [tuple(tuple(y) if isinstance(y, list) else y for y in a) for a in m["args"]]
             args = [tuple(tuple(tuple(z) for z in y) if isinstance(y, tuple) and y and isinstance(y[0], tuple) else y
                           for y in a) for a in args]
